@@ -2001,6 +2001,7 @@ handshake_switch_codec(int dns_fd, int bits)
 		read = handshake_waitdns(dns_fd, in, sizeof(in) - 1, 's', 'S', i+1);
 
 		if (read > 0) {
+			in[read] = 0; /* zero terminate */
 			if (strncmp("BADLEN", in, 6) == 0) {
 				fprintf(stderr, "Server got bad message length. ");
 				goto codec_revert;
@@ -2011,7 +2012,6 @@ handshake_switch_codec(int dns_fd, int bits)
 				fprintf(stderr, "Server rejected the selected codec. ");
 				goto codec_revert;
 			}
-			in[read] = 0; /* zero terminate */
 			fprintf(stderr, "Server switched upstream to codec %s\n", in);
 			dataenc = tempenc;
 			return;
@@ -2055,6 +2055,7 @@ handshake_switch_downenc(int dns_fd)
 		read = handshake_waitdns(dns_fd, in, sizeof(in) - 1, 'o', 'O', i+1);
 
 		if (read > 0) {
+			in[read] = 0; /* zero terminate */
 			if (strncmp("BADLEN", in, 6) == 0) {
 				fprintf(stderr, "Server got bad message length. ");
 				goto codec_revert;
@@ -2065,7 +2066,6 @@ handshake_switch_downenc(int dns_fd)
 				fprintf(stderr, "Server rejected the selected codec. ");
 				goto codec_revert;
 			}
-			in[read] = 0; /* zero terminate */
 			fprintf(stderr, "Server switched downstream to codec %s\n", in);
 			return;
 		}
@@ -2093,9 +2093,10 @@ handshake_try_lazy(int dns_fd)
 
 		send_lazy_switch(dns_fd);
 
-		read = handshake_waitdns(dns_fd, in, sizeof(in), 'o', 'O', i+1);
+		read = handshake_waitdns(dns_fd, in, sizeof(in) - 1, 'o', 'O', i+1);
 
 		if (read > 0) {
+			in[read] = 0; /* zero terminate */
 			if (strncmp("BADLEN", in, 6) == 0) {
 				fprintf(stderr, "Server got bad message length. ");
 				goto codec_revert;
@@ -2246,10 +2247,11 @@ handshake_autoprobe_fragsize(int dns_fd)
 
 			send_fragsize_probe(dns_fd, proposed_fragsize);
 
-			read = handshake_waitdns(dns_fd, in, sizeof(in), 'r', 'R', 1);
+			read = handshake_waitdns(dns_fd, in, sizeof(in) - 1, 'r', 'R', 1);
 
 			if (read > 0) {
 				/* We got a reply */
+				in[read] = 0; /* short replies are compared too */
 				if (fragsize_check(in, read, proposed_fragsize, &max_fragsize) == 1)
 					break;
 			}
@@ -2314,9 +2316,10 @@ handshake_set_fragsize(int dns_fd, int fragsize)
 
 		send_set_downstream_fragsize(dns_fd, fragsize);
 
-		read = handshake_waitdns(dns_fd, in, sizeof(in), 'n', 'N', i+1);
+		read = handshake_waitdns(dns_fd, in, sizeof(in) - 1, 'n', 'N', i+1);
 
 		if (read > 0) {
+			in[read] = 0; /* zero terminate */
 
 			if (strncmp("BADFRAG", in, 7) == 0) {
 				fprintf(stderr, "Server rejected fragsize. Keeping default.");
